@@ -63,7 +63,8 @@ Inductive outcome :=
 | Established (version : bytes) (secure : bool) (t : tech) (rest : bytes)
 | Refused (eof : bool).      (* eof: the machine was still reading when the input ended *)
 
-Record cfg := mkcfg { c_secure : bool; c_cert : bool }.
+(* c_reqcc: the configuration demands a client certificate (ServerConfig.RequireClientCert) *)
+Record cfg := mkcfg { c_secure : bool; c_cert : bool; c_reqcc : bool }.
 
 Record sobs := mksobs { statuses : list N; sout : outcome }.
 Record cobs := mkcobs { written : bytes; cout : outcome }.
@@ -133,6 +134,9 @@ Definition server_upgrade (c : cfg) (F : nat) (nv : bytes) (s1 : St) : res sobs 
         if tls_ok then Ok (mksobs [200; 101] (Established nv true TechTls (r_rest R s2)))
         else Ok (mksobs [200; 101] (Refused (r_eof R s2 || tls_waits (r_rest R s2))))
       else Ok (mksobs [200; 503] (Refused (r_eof R s2)))
+    else if support_tls && c_reqcc c then
+      (* no StartTLS asked for: the client cannot present the certificate this server requires *)
+      Ok (mksobs [200; 403] (Refused (r_eof R s2)))
     else
       Ok (mksobs [200; 101] (Established nv (c_secure c) (carrier_tech (c_secure c)) (r_rest R s2)))
   end.
@@ -314,13 +318,13 @@ Definition dispatch_c06 (ts : list tok) : list tok :=
   | op :: TI sec :: TI cert :: TI n :: rest =>
     if is_word "c06s" op then
       match take_bytes (Z.to_nat n) rest with
-      | Some segs => server_toks (server_run (mkcfg (sec =? 1)%Z (cert =? 1)%Z) segs)
+      | Some segs => server_toks (server_run (mkcfg (sec =? 1)%Z (1 <=? cert)%Z (cert =? 2)%Z) segs)
       | None => [W "model-error"]
       end
     else [W "model-error"]
   | [op; TI sec; TI cert; TB b; TI seed] =>
     if is_word "c06x" op then
-      let c := mkcfg (sec =? 1)%Z (cert =? 1)%Z in
+      let c := mkcfg (sec =? 1)%Z (1 <=? cert)%Z (cert =? 2)%Z in
       let one := server_toks (server_run c [b]) in
       let same :=
         match b with
